@@ -15,7 +15,7 @@ inductive BiasData (α : Type) where
   | harm
   | restr (firstStep : Option Int) (centers : Option (List α)) (k : Option α) (stage : Option Int) (accWork : Option α)
           (fe : Option α)
-  | notModelled
+  | mtd (s : MetaState α)
 
 /-- `get_state_params` + `write_state_data`: restraints write centres / force constant / stage / work only when they
     can change -/
@@ -31,7 +31,7 @@ def saveBias : Bias α → BiasData α
            (if moving && p.nstages ≠ 0 then some s.stage else none)
            (if p.outputWork then some s.accWork else none)
            (if p.chgK && p.nstages ≠ 0 then some s.restraintFE else none)
-  | .mtd _ _ _ => .notModelled
+  | .mtd _ p s => .mtd (metaLoaded p s)
 
 /-- the state file: the step number and one block per bias -/
 def persist (s : Sys α) : Int × List (String × BiasData α) :=
